@@ -1,6 +1,7 @@
 package main
 
 import (
+	"go/token"
 	"fmt"
 	"go/types"
 	"strings"
@@ -624,21 +625,7 @@ func checkFanOut(p *Prog, r *Report) {
 		for _, ref := range *inner.Referrers() {
 			if st, ok := ref.(*ssa.Store); ok {
 				if ia, ok := st.Addr.(*ssa.IndexAddr); ok && ia.X == ssa.Value(mk) {
-					if phi, ok := ia.Index.(*ssa.Phi); ok {
-						init0 := false
-						for _, e := range phi.Edges {
-							if k, ok := constInt(e); ok && k == 0 {
-								init0 = true
-							}
-						}
-						bound := false
-						for _, u := range *phi.Referrers() {
-							if bo, ok := u.(*ssa.BinOp); ok && bo.Op.String() == "<" && (*Seg)(nil).term(bo.Y, 0) == (*Seg)(nil).term(mk.Len, 0) {
-								bound = true
-							}
-						}
-						storeOK = init0 && bound
-					}
+					storeOK = inductionCoversSlice(ia.Index, mk)
 				}
 			}
 		}
@@ -719,4 +706,62 @@ func checkGeneratorFailure(p *Prog, r *Report) {
 			r.Check(sends == 1 && closes == 1 && okVal && buffered && same, "C07.R6", key, p.Pos(fn.Pos()), "a request-generator failure yields exactly one error item on a closed (buffered) channel", fmt.Sprintf("sends=%d closes=%d carriesErr=%v buffered=%v returned=%v", sends, closes, okVal, buffered, same), s.Describe(p)...)
 		}
 	}
+}
+
+// inductionCoversSlice: idx runs over 0 .. len-1 of the slice made by mk, in steps of one.
+// Classic form: idx = phi(0, idx+1), loop guarded by idx < L. Range form (go/ssa rotates `for i := range s`):
+// idx = phi(-1, idx) + 1, guarded by idx < len(s). L is the make's length operand or len(slice).
+func inductionCoversSlice(idx ssa.Value, mk *ssa.MakeSlice) bool {
+	isLen := func(b ssa.Value) bool {
+		if (*Seg)(nil).term(b, 0) == (*Seg)(nil).term(mk.Len, 0) {
+			return true
+		}
+		if c, ok := b.(*ssa.Call); ok {
+			if bi, isB := c.Call.Value.(*ssa.Builtin); isB && bi.Name() == "len" && c.Call.Args[0] == ssa.Value(mk) {
+				return true
+			}
+		}
+		return false
+	}
+	guarded := func(v ssa.Value) bool {
+		for _, u := range *v.Referrers() {
+			if bo, ok := u.(*ssa.BinOp); ok && bo.Op == token.LSS && bo.X == v && isLen(bo.Y) {
+				return true
+			}
+		}
+		return false
+	}
+	plus1 := func(v ssa.Value, base ssa.Value) bool {
+		bo, ok := v.(*ssa.BinOp)
+		if !ok || bo.Op != token.ADD || bo.X != base {
+			return false
+		}
+		k, isK := constInt(bo.Y)
+		return isK && k == 1
+	}
+	if phi, ok := idx.(*ssa.Phi); ok && len(phi.Edges) == 2 {
+		init0, step := false, false
+		for _, e := range phi.Edges {
+			if k, isK := constInt(e); isK && k == 0 {
+				init0 = true
+			} else if plus1(e, phi) {
+				step = true
+			}
+		}
+		return init0 && step && guarded(phi)
+	}
+	if bo, ok := idx.(*ssa.BinOp); ok {
+		if phi, isP := bo.X.(*ssa.Phi); isP && plus1(bo, phi) && len(phi.Edges) == 2 {
+			initM1, back := false, false
+			for _, e := range phi.Edges {
+				if k, isK := constInt(e); isK && k == -1 {
+					initM1 = true
+				} else if e == ssa.Value(bo) {
+					back = true
+				}
+			}
+			return initM1 && back && guarded(bo)
+		}
+	}
+	return false
 }
